@@ -617,3 +617,82 @@ Proof. apply (top_parse_print MRange toks_lv p_lv wf_lv good_lv p_lv_complete). 
 Theorem lv_parse_sound s a : parse_lv s = Some a ->
   wf_lv a = true /\ exists ws, blanks ws = true /\ List.length ws = S (List.length (toks_lv a)) /\ s = print_lv a ws.
 Proof. apply (top_parse_sound MRange toks_lv p_lv wf_lv). exact p_lv_sound. Qed.
+
+(* ------------------------------------------------------------------ rank tuples *)
+
+Definition toks_names (xs : list string) : list token := join (TSym SComma) (map (fun x => [TName x]) xs).
+
+Lemma p_names_complete xs : xs <> [] -> p_names (toks_names xs ++ [TSym SRPar]) = Some xs.
+Proof.
+  induction xs as [|x xs IH]; intros Hne; [congruence|].
+  destruct xs as [|y xs]; [reflexivity|].
+  unfold toks_names in *. change (map (fun x => [TName x]) (x :: y :: xs)) with ([TName x] :: map (fun x => [TName x]) (y :: xs)).
+  rewrite join_cons by (simpl; discriminate).
+  change (([TName x] ++ TSym SComma :: join (TSym SComma) (map (fun x0 => [TName x0]) (y :: xs))) ++ [TSym SRPar])
+    with (TName x :: TSym SComma :: (join (TSym SComma) (map (fun x0 => [TName x0]) (y :: xs)) ++ [TSym SRPar])).
+  cbn [p_names]. rewrite IH by discriminate. reflexivity.
+Qed.
+
+Lemma p_names_sound n : forall ts xs, List.length ts <= n -> p_names ts = Some xs ->
+  ts = toks_names xs ++ [TSym SRPar] /\ xs <> [].
+Proof.
+  induction n as [|n IH]; intros ts xs Hn H.
+  - destruct ts; [discriminate|simpl in Hn; lia].
+  - destruct ts as [|t r]; [discriminate|]. destruct t as [x| | | | |]; try discriminate.
+    destruct r as [|t2 r2]; [discriminate|]. destruct t2 as [| | | | |y]; try discriminate.
+    destruct y; try discriminate.
+    + (* , *)
+      cbn [p_names] in H. destruct (p_names r2) as [l|] eqn:E; [|discriminate]. simpl in H. inversion H; subst.
+      destruct (IH r2 l) as [E' Hne]; auto; [simpl in Hn; lia|]. subst r2. split; [|discriminate].
+      unfold toks_names. change (map (fun x0 => [TName x0]) (x :: l)) with ([TName x] :: map (fun x0 => [TName x0]) l).
+      rewrite join_cons by (destruct l; [congruence|simpl; discriminate]). reflexivity.
+    + (* ) *)
+      destruct r2; [|discriminate]. inversion H; subst. split; [reflexivity|discriminate].
+Qed.
+
+Lemma p_rt_complete a : wf_rt a = true -> p_rt (toks_rt a) = Some a.
+Proof.
+  destruct a as [x|xs]; [reflexivity|]. simpl. intros H. bsplit.
+  change (join (TSym SComma) (map (fun x => [TName x]) xs)) with (toks_names xs).
+  destruct xs as [|x [|y xs]]; try discriminate.
+  rewrite p_names_complete by discriminate. reflexivity.
+Qed.
+
+Lemma good_names xs : forallb is_ident xs = true -> good MPlain (toks_names xs) = true.
+Proof.
+  intros H. apply good_join; try reflexivity. eapply forallb_map_impl; [|eassumption].
+  intros x Hx. unfold good. simpl. now rewrite Hx.
+Qed.
+
+Lemma good_rt a : wf_rt a = true -> good MPlain (toks_rt a) = true.
+Proof.
+  destruct a as [x|xs]; simpl; intros H.
+  - unfold good. simpl. now rewrite H.
+  - bsplit. apply good_cons; try reflexivity. apply good_app; try reflexivity. now apply good_names.
+Qed.
+
+Lemma okp_names xs : okp (toks_names xs) = true -> forallb is_ident xs = true.
+Proof.
+  unfold okp, toks_names. rewrite forallb_join by reflexivity.
+  induction xs as [|x xs IH]; simpl; auto. intros H. bsplit; auto.
+Qed.
+
+Lemma p_rt_sound ts a : forallb (tok_ok MPlain) ts = true -> p_rt ts = Some a -> ts = toks_rt a /\ wf_rt a = true.
+Proof.
+  intros Hok H. unfold p_rt in H.
+  destruct ts as [|t r]; [discriminate|]. destruct t as [x| | | | |y]; try discriminate.
+  - destruct r; [|discriminate]. inversion H; subst. simpl in Hok. bsplit. auto.
+  - destruct y; try discriminate.
+    destruct (p_names r) as [xs|] eqn:E; [|discriminate].
+    destruct (p_names_sound _ _ _ (le_n _) E) as [-> Hne].
+    destruct xs as [|x [|y xs]]; try discriminate. inversion H; subst.
+    apply okp_tail in Hok. rewrite okp_app in Hok. apply andb_prop in Hok. destruct Hok as [Hok _].
+    apply okp_names in Hok. split; [reflexivity|]. simpl. exact Hok.
+Qed.
+
+Theorem rt_parse_print a ws : wf_rt a = true -> blanks ws = true -> parse_rt (print_rt a ws) = Some a.
+Proof. apply (top_parse_print MPlain toks_rt p_rt wf_rt good_rt p_rt_complete). Qed.
+
+Theorem rt_parse_sound s a : parse_rt s = Some a ->
+  wf_rt a = true /\ exists ws, blanks ws = true /\ List.length ws = S (List.length (toks_rt a)) /\ s = print_rt a ws.
+Proof. apply (top_parse_sound MPlain toks_rt p_rt wf_rt). exact p_rt_sound. Qed.
